@@ -11,6 +11,7 @@ C03.e K12 informational: `mapping.upper in {...}` compares a method object (guar
 from __future__ import annotations
 
 import ast
+import itertools
 
 import sympy as sp
 
@@ -42,6 +43,7 @@ def run(idx: Index, rep: Report, tier: str):
     check_single_reordering(idx, rep)
     check_combinatorial_basis(idx, rep)
     check_hcb_table(idx, rep)
+    check_combinatorial_spectrum(idx, rep, tier)
     check_register_size_reaches_encoder(idx, rep)
 
 
@@ -151,24 +153,29 @@ def check_single_reordering(idx: Index, rep: Report):
         return _f
     ctors = {"make_up_then_down": lambda a, k: ("UTD", a[0]), "jordan_wigner": enc("JW"), "bravyi_kitaev": enc("BK"), "jkmn": enc("JKMN"),
              "symmetry_conserving_bravyi_kitaev": enc("SCBK"), "hard_core_boson_operator": enc("HCBOP"), "boson_to_qubit_mapping": enc("HCB"), "QubitOperator": lambda a, k: _QOut()}
-    for mp in ("JW", "BK", "JKMN", "SCBK", "HCB"):
-        for utd in (False, True):
+    for mp0, utd in itertools.product(("JW", "BK", "JKMN", "SCBK", "HCB"), (False, True)):
+        # the encoding name is case-insensitive (every comparison of the dispatcher upper-cases it): each spelling takes the same route
+        for mp in (mp0, mp0.lower(), mp0.capitalize()):
             last.clear()
             fo = make_folder(idx, MT, ctors=ctors, isinstance_hook=hook)
             try:
                 fo.run_function(f.node, {"fermion_operator": F, "mapping": mp, "n_spinorbitals": 4, "n_electrons": 2, "up_then_down": utd, "spin": 0})
-            except (Undecidable, Raised) as e:
+            except Undecidable as e:
                 raise AnalysisError(f"fermion_to_qubit_mapping not foldable for {mp}, up_then_down={utd}: {e}")
+            except Raised as e:
+                rep.violation(rule, f, f.node, text=f"{mp}, up_then_down={utd}: operator reaching the encoder",
+                              what="every supported encoding name, in any letter case, is dispatched", reason=f"the dispatcher raises {e.exc_type} for `{mp}`")
+                continue
             p = last.get("enc")
             src = p.src if p is not None else None
-            if mp == "HCB":
+            if mp0 == "HCB":
                 # one qubit per *spatial* orbital: the boson operator is extracted from the interleaved operator, the ordering request does not apply
                 inner = src.src if isinstance(src, _Probe) else src
                 ok = isinstance(src, _Probe) and src.tag == "HCBOP" and inner == F
                 got = inner
                 want_txt = "the caller's operator as it is (spatial-orbital encoding: the spin ordering does not apply, and the integral extraction assumes interleaved spin-orbitals)"
             else:
-                ok = src == (("UTD", F) if utd else F) and (mp != "SCBK" or p.kw.get("up_then_down") == utd)
+                ok = src == (("UTD", F) if utd else F) and (mp0 != "SCBK" or p.kw.get("up_then_down") == utd)
                 got = src
                 want_txt = "the operator re-indexed exactly once iff the all-up-then-all-down ordering is requested"
             rep.decide(ok, rule, f, f.node, text=f"{mp}, up_then_down={utd}: operator reaching the encoder",
@@ -230,6 +237,106 @@ def check_combinatorial_basis(idx: Index, rep: Report):
                 rep.decide(not bad, rule, f, f.node, text=f"{m} orbitals, ({na}, {nb}) electrons: {len(labels)} configurations on {nq} qubits",
                            what="every configuration of the sector gets its own row inside the register", reason="; ".join(bad))
     rep.floor("combinatorial basis labellings folded", n_cases, 80)
+
+
+class _FermIn:
+    """stand-in for a FermionOperator already in chemist order: the term dictionary and the constant"""
+    _sa_model = True
+
+    def __init__(self, terms):
+        self.terms = dict(terms)
+
+    @property
+    def constant(self):
+        return self.terms.get((), 0.0)
+
+
+class _QubitOut:
+    _sa_model = True
+
+    def __init__(self, *a, **k):
+        self.terms = {}
+
+
+def _test_hamiltonian(n_modes: int, seed: int):
+    """a Hermitian, number- and spin-conserving operator in chemist order (p^ q and p^ q r^ s with spin(p) = spin(q), spin(r) = spin(s)) with complex
+    coefficients from a fixed linear-congruential sequence; spin-orbital 2i is alpha, 2i+1 beta"""
+    state = [seed]
+
+    def rnd():
+        state[0] = (state[0] * 1103515245 + 12345) % (2 ** 31)
+        return ((state[0] >> 8) % 2001 - 1000) / 1000.0
+    N = 2 * n_modes
+    terms = {(): rnd()}
+    for p_ in range(N):
+        terms[((p_, 1), (p_, 0))] = rnd()
+        for q_ in range(p_ + 2, N, 2):
+            c = complex(rnd(), rnd())
+            terms[((p_, 1), (q_, 0))] = c
+            terms[((q_, 1), (p_, 0))] = c.conjugate()
+    quads = [(p_, q_, r_, s_) for p_ in range(N) for q_ in range(p_ % 2, N, 2) for r_ in range(N) for s_ in range(r_ % 2, N, 2)]
+    for i, (p_, q_, r_, s_) in enumerate(quads):
+        if i % 3 != seed % 3 or ((p_, 1), (q_, 0), (r_, 1), (s_, 0)) in terms:
+            continue
+        c = complex(rnd(), rnd()) / 2
+        k1, k2 = ((p_, 1), (q_, 0), (r_, 1), (s_, 0)), ((s_, 1), (r_, 0), (q_, 1), (p_, 0))
+        if k1 == k2:
+            terms[k1] = c.real
+        else:
+            terms[k1], terms[k2] = c, c.conjugate()
+    return terms
+
+
+def check_combinatorial_spectrum(idx: Index, rep: Report, tier: str):
+    """`combinatorial` folded as a whole (the matrix it allocates is a concrete numpy array of the element type the source asks for, so numpy's own casting
+    applies to what is stored in it; openfermion's chemist_ordered is replaced by the identity on operators given in chemist order) on Hermitian number- and
+    spin-conserving test operators with complex coefficients.  The resulting qubit operator must be Hermitian and its spectrum must be that of the
+    operator on the (n_alpha, n_beta) sector, plus one copy of the constant for each unused row of the register."""
+    import numpy as np
+    from ..consteval import Raised, Undecidable
+    from ..rules import fock, numsem
+    from ..rules.circuitsem import make_folder
+    rule = "K9.combinatorial-spectrum"
+    f = idx.function(f"{COMBI}::combinatorial")
+    cases = [(2, (1, 1), 1), (2, 2, 2), (2, (2, 1), 3), (3, (1, 1), 4), (2, (1, 0), 5)]
+    if tier == "thorough":
+        cases += [(3, (2, 1), 6), (3, (1, 2), 7), (3, 2, 8)]
+    n = 0
+    for n_modes, n_el, seed in cases:
+        terms = _test_hamiltonian(n_modes, seed)
+        fo = make_folder(idx, COMBI, ctors={"chemist_ordered": lambda a, k: a[0], "QubitOperator": lambda a, k: _QubitOut()})
+        label = f"{n_modes} orbitals, electrons {n_el}, {len(terms)} terms with complex coefficients"
+        try:
+            q = fo.run_function(f.node, {"ferm_op": _FermIn(terms), "n_modes": n_modes, "n_electrons": n_el})
+        except Undecidable as e:
+            raise AnalysisError(f"combinatorial not foldable for {label}: {e}")
+        except Raised as e:
+            rep.violation(rule, f, f.node, text=label, what="the encoding is defined for every Hermitian number- and spin-conserving operator", reason=f"raises {e.exc_type}")
+            n += 1
+            continue
+        if not isinstance(q, _QubitOut):
+            raise AnalysisError(f"combinatorial folded to {q!r}")
+        N = 2 * n_modes
+        na, nb = n_el if isinstance(n_el, tuple) else (n_el // 2, n_el // 2)
+        H = np.zeros((2 ** N, 2 ** N), dtype=complex)
+        for t, c in terms.items():
+            H = H + complex(c) * fock.term_matrix(t, N).astype(complex)
+        rows = [s_ for s_ in range(2 ** N) if sum((s_ >> (N - 1 - j)) & 1 for j in range(0, N, 2)) == na and sum((s_ >> (N - 1 - j)) & 1 for j in range(1, N, 2)) == nb]
+        sector = H[np.ix_(rows, rows)]
+        nq = max([i for t in q.terms for i, _ in t] + [0]) + 1
+        Q = np.zeros((2 ** nq, 2 ** nq), dtype=complex)
+        for t, c in q.terms.items():
+            Q = Q + complex(c) * numsem._pauli(dict(t), nq)
+        herm = float(np.max(np.abs(Q - Q.conj().T)))
+        want = sorted(list(np.linalg.eigvalsh(sector)) + [float(np.real(terms[()]))] * (2 ** nq - len(rows))) if 2 ** nq >= len(rows) else None
+        got = sorted(np.real(np.linalg.eigvals(Q)))
+        dev = float(np.max(np.abs(np.array(got) - np.array(want)))) if want is not None and len(want) == len(got) else float("inf")
+        n += 1
+        rep.decide(herm < 1e-5 and dev < 1e-4, rule, f, f.node, text=f"{label}: {len(q.terms)} Pauli terms on {nq} qubits",
+                   what="the qubit operator is Hermitian and has the spectrum of the fermionic operator on the sector with the given alpha and beta electron numbers "
+                        "(unused rows of the register carry the constant)",
+                   reason=f"spectrum deviates by {dev:.3g}, anti-Hermitian part {herm:.3g}")
+    rep.floor("combinatorial encodings folded as a whole", n, 5)
 
 
 class _SymTensor:
